@@ -2152,7 +2152,10 @@ class LTFlow:
         # position as a number); then every condition except the exhaustion of the winner's sequence has a value and a
         # forbidden transition on a path without an undecided branch is a counterexample of that scenario
         self.concrete = concrete
-        self.src = None
+        # winner variables: every local that is assigned / initialised from lt.min_source() somewhere (a helper that was
+        # inlined by engine/normalize.py brings its own local per call site).  Which of them holds the winner of the tree
+        # as it is now is a fact of the path: the mark (d, "winner") in env, set by the reading and dropped by the next one
+        self.srcs = set()
         self.badlog = []         # [sig, msg, node, (statement, event, E)] forbidden transitions met on some path
         self.ok_keys = set()     # (statement, event, E) at which the transition was allowed on some path
         self.alias = {}          # did of a reference local -> ("first"/"second", index var did)
@@ -2205,16 +2208,18 @@ class LTFlow:
         """does the index x name the sequence reported by min_source()?  True: it is the winner variable or a copy taken
         since; False on positive evidence only: a constant index, a second reading of the tree (the protocol reads the
         winner once per round), a variable into which no value of the winner flows; otherwise not decidable"""
-        if self.src is not None and x == self.src:
+        if self.current(x, env) or (x, "srccopy") in env:
             return True
-        if (x, "srccopy") in env:
-            return True
+        if x in self.srcs:
+            # an earlier reading of min_source() kept in another variable: equal to the present winner or not
+            raise ir.AnalysisBroken("%s: the sequence index at line %s holds an earlier reading of min_source(); whether it is "
+                                    "still the winner is not decided" % (self.fn.full, node.get("l")))
         if isinstance(x, str):
             i = self.index_nodes.get(x)
             if i is not None and (const_int(i) is not None or any(self.ltcall(z, ("min_source",)) for z in walk(i))):
                 return False
             raise ir.AnalysisBroken("%s: index of a sequence not understood at line %s: %s" % (self.fn.full, node.get("l"), x[5:]))
-        related = {self.src, self.lt} | {d for d, v in self.copies}
+        related = set(self.srcs) | {self.lt} | {d for d, v in self.copies}
         v = local_decl(self.fn, x)
         if v is not None and (v.get("ty") or "").rstrip().endswith("&"):
             raise ir.AnalysisBroken("%s: sequence indexed through a reference local at line %s" % (self.fn.full, node.get("l")))
@@ -2230,6 +2235,13 @@ class LTFlow:
         return False
 
     copies = frozenset()
+
+    def current(self, x, env):
+        """x is the variable through which this path read min_source() last.  Before the first reading on a path no
+        variable is marked: a winner variable then counts as current and the state's srcok (False) tells the truth"""
+        if (x, "winner") in env:
+            return True
+        return x in self.srcs and not any(v == "winner" for d, v in env)
 
     def head_of(self, e, env):
         """index var if e is *seqs[i].first"""
@@ -2258,7 +2270,7 @@ class LTFlow:
             return bool(ci) if (e.get("ty") or "") == "bool" else ci
         if k == "DeclRefExpr":
             for d, v in st[4]:
-                if d == e["ref"]["id"] and v not in ("bound", "srccopy"):
+                if d == e["ref"]["id"] and v not in ("bound", "srccopy", "winner"):
                     return v
             return None
         if k == "UnaryOperator" and e.get("op") == "!":
@@ -2328,7 +2340,7 @@ class LTFlow:
         if b:
             fa, fb = self.seq_field(b[1], st[4]), self.seq_field(b[2], st[4])
             if fa and fb and {fa[0], fb[0]} == {"first", "second"} and fa[1] == fb[1]:
-                if (fa[1] == self.src and self.src is not None) or (fa[1], "srccopy") in st[4]:
+                if self.current(fa[1], st[4]) or (fa[1], "srccopy") in st[4]:
                     if st[2] is None:
                         raise _NeedE()
                     return st[2] if b[0] == "==" else not st[2]
@@ -2401,7 +2413,8 @@ class LTFlow:
             return []
         if kind == "MIN":
             # min_source() reports the winner of the tree as it is; aliases of the previous winner's sequence die
-            env2 = frozenset((d, v) for d, v in env if v not in ("bound", "srccopy"))
+            # (and so do the marks of the variable that held the previous reading and of its copies)
+            env2 = frozenset((d, v) for d, v in env if v not in ("bound", "srccopy", "winner") and d != x) | {(x, "winner")}
             return [(tree, True, None, tpend, env2)]
         if kind == "EMIT":
             if not self.is_winner(x, env, node) or not srcok:
@@ -2431,7 +2444,7 @@ class LTFlow:
                 self.bad("loop-order", "the winner's sequence is advanced %s (order must be min_source, emit, advance, delete_min_insert)"
                          % ("without its head having been emitted" if tree == "SYNC" else "twice"), node)
                 return []
-            env2 = frozenset((d, v) for d, v in env if v in ("bound", "srccopy") or isinstance(v, int) and not isinstance(v, bool) or (d, "E") not in self.edep)
+            env2 = frozenset((d, v) for d, v in env if v in ("bound", "srccopy", "winner") or isinstance(v, int) and not isinstance(v, bool) or (d, "E") not in self.edep)
             if self.concrete is not None:
                 n = sum(v for d, v in env2 if d == "#adv")
                 env2 = frozenset((d, v) for d, v in env2 if d != "#adv") | {("#adv", n + 1)}
@@ -2508,11 +2521,9 @@ class LTFlow:
                         out += self.step("TGT", s2, e0) if post else [s2]
                 return dedupe(out)
             if ref_of(lhs) is not None and self.ltcall(match.strip_conv(b[2]), ("min_source",)):
-                if self.src is not None and self.src != ref_of(lhs):
-                    raise ir.AnalysisBroken("%s: two winner variables" % fn.full)
-                self.src = ref_of(lhs)
-                return each("MIN", e0)
-            if ref_of(lhs) == self.src and self.src is not None:
+                self.srcs.add(ref_of(lhs))
+                return each("MIN", e0, ref_of(lhs))
+            if ref_of(lhs) in self.srcs:
                 raise ir.AnalysisBroken("%s: winner variable assigned from something else at line %s" % (fn.full, e0.get("l")))
             if ref_of(lhs) is not None and ref_of(lhs) not in (self.target, self.lt):
                 return [self.assign(st, ref_of(lhs), b[2]) for st in states]
@@ -2542,7 +2553,7 @@ class LTFlow:
             if z["k"] == "DeclRefExpr" and z["ref"]["id"] == self.lt:
                 raise ir.AnalysisBroken("%s: use of the loser tree not understood at line %s" % (fn.full, z.get("l")))
             w = match.unop(z, ("++", "--")) or (match.binop(z, ("=", "+=", "-=")) if z["k"] in ("BinaryOperator", "CompoundAssignOperator", "CXXOperatorCallExpr") else None)
-            if w and (ref_of(w[1]) in (self.target, self.src) or (z is not e0 and self.seq_field_safe(w[1]))):
+            if w and ((ref_of(w[1]) == self.target or ref_of(w[1]) in self.srcs) or (z is not e0 and self.seq_field_safe(w[1]))):
                 raise ir.AnalysisBroken("%s: update of the merge cursor not understood at line %s" % (fn.full, z.get("l")))
         # locals changed by ++/-- lose their constant; a counter stepped by one keeps a small exact value, then 'at least n'
         out = []
@@ -2591,7 +2602,7 @@ class LTFlow:
             v = None
         if isinstance(v, (bool, int)):
             env = env | {(did, v)}
-        elif self.src is not None and ref_of(match.strip_conv(rhs)) == self.src and st[1]:
+        elif (ref_of(match.strip_conv(rhs)), "winner") in st[4] and st[1]:
             env = env | {(did, "srccopy")}
             self.copies = self.copies | {(did, "srccopy")}
         return st[:4] + (env,)
@@ -2604,12 +2615,10 @@ class LTFlow:
         if "lambda at" not in (v.get("ty") or ""):
             self.check_calls(init)
         if self.ltcall(match.strip_conv(init), ("min_source",)):
-            if self.src is not None and self.src != v["did"]:
-                raise ir.AnalysisBroken("%s: two winner variables" % fn.full)
-            self.src = v["did"]
+            self.srcs.add(v["did"])
             out = []
             for st in states:
-                out += self.step("MIN", st, v)
+                out += self.step("MIN", st, v, v["did"])
             return dedupe(out)
         if any(self.ltcall(z, ("min_source", "delete_min_insert", "init", "insert_start")) for z in walk(init)):
             raise ir.AnalysisBroken("%s: use of the loser tree not understood at line %s" % (fn.full, v.get("l")))
@@ -2624,9 +2633,12 @@ class LTFlow:
                 self.pair_alias[v["did"]] = self.index_of(p[1])
                 return dedupe([st[:4] + (st[4] | {(v["did"], "bound")},) for st in states])
             return states
-        if self.src is not None and ref_of(match.strip_conv(init)) == self.src:
+        if ref_of(match.strip_conv(init)) in self.srcs:
+            # a copy of a winner variable: it names the winner where that variable is the one read last on the path
             self.copies = self.copies | {(v["did"], "srccopy")}
-            return dedupe([st[:4] + (frozenset((d, x) for d, x in st[4] if d != v["did"]) | ({(v["did"], "srccopy")} if st[1] else set()),) for st in states])
+            wd = ref_of(match.strip_conv(init))
+            return dedupe([st[:4] + (frozenset((d, x) for d, x in st[4] if d != v["did"]) |
+                                     ({(v["did"], "srccopy")} if st[1] and (wd, "winner") in st[4] else set()),) for st in states])
         out = []
         for st in states:
             pend = [st]
@@ -2692,7 +2704,7 @@ class LTFlow:
 
     def expr_effects(self, c, states):
         ws = [ref_of(w[1]) for z in walk(c) for w in [match.unop(z, ("++", "--")) or (match.binop(z, ("=", "+=", "-=")) if z["k"] in ("BinaryOperator", "CompoundAssignOperator") else None)] if w]
-        if any(d in (self.target, self.src, self.lt) for d in ws):
+        if any(d in (self.target, self.lt) or d in self.srcs for d in ws if d is not None):
             raise ir.AnalysisBroken("%s: merge cursor changed inside a condition at line %s" % (self.fn.full, c.get("l")))
         ws = {d for d in ws if d is not None}
         if not ws:
